@@ -764,7 +764,7 @@ var externalMutators = map[string]int{
 var externalReadOnly = []string{"strings.", "fmt.", "math.", "strconv.", "errors.", "log.", "unicode.", "unicode/utf8.",
 	"os.", "io/ioutil.", "flag.", "(*flag.FlagSet).", "(*log.Logger).", "(encoding/binary.", "github.com/deckarep/golang-set.New",
 	"math/big.New", "(*strings.Builder).", "(*bytes.Buffer).", "bytes.", "time.", "(time.", "path/filepath.", "sort.SearchStrings", "sort.StringsAreSorted",
-	"(*os.File).", "bufio.", "(*bufio."}
+	"(*os.File).", "bufio."}
 
 // effectsOf computes the summary of fn from its direct writes and its callees' summaries.
 func (e *Eff) effectsOf(fn *ssa.Function) (summary []Effect, direct []Effect, unknown []string) {
@@ -939,6 +939,26 @@ func (e *Eff) callEffects(fn *ssa.Function, c ssa.CallInstruction, emit func([]R
 			if idx >= 0 && idx < len(args) {
 				emit(prefixAll(e.MemRoots(args[idx]), "[*]"), name+" (in-place mutator)", c, "")
 			}
+			// reading advances the reader: a stateful reader that outlives the call (a buffered
+			// reader in a package variable) is shared state; crypto/rand.Reader itself is
+			// documented as safe for concurrent use
+			if (name == "io.ReadFull" || name == "io.ReadAtLeast") && len(args) > 0 && !isCryptoRandReader(args[0]) {
+				emit(prefixAll(e.MemRoots(args[0]), ".{state}"), name+" (advances its reader)", c, "")
+			}
+			continue
+		}
+		statefulRecv := false
+		for _, pfx := range []string{"(*bufio.Reader).", "(*bufio.Writer).", "(*bufio.Scanner).", "(*bytes.Buffer).", "(*bytes.Reader).", "(*strings.Builder).", "(*strings.Reader)."} {
+			if strings.HasPrefix(name, pfx) {
+				statefulRecv = true
+			}
+		}
+		if statefulRecv && len(args) > 0 {
+			switch {
+			case strings.HasSuffix(name, ").String"), strings.HasSuffix(name, ").Len"), strings.HasSuffix(name, ").Cap"), strings.HasSuffix(name, ").Bytes"), strings.HasSuffix(name, ").Size"), strings.HasSuffix(name, ").Buffered"):
+			default:
+				emit(prefixAll(e.MemRoots(args[0]), ".{state}"), name+" (receiver mutated)", c, "")
+			}
 			continue
 		}
 		if strings.HasPrefix(name, "(*math/big.") {
@@ -1070,4 +1090,25 @@ func (e *Eff) rebindFreeVar(fn *ssa.Function, root Root) ([]Root, bool) {
 		return nil, false
 	}
 	return out, true
+}
+
+// isCryptoRandReader: a load of the package variable crypto/rand.Reader.
+func isCryptoRandReader(v ssa.Value) bool {
+	for {
+		switch x := v.(type) {
+		case *ssa.ChangeInterface:
+			v = x.X
+			continue
+		case *ssa.MakeInterface:
+			v = x.X
+			continue
+		}
+		break
+	}
+	ld, ok := v.(*ssa.UnOp)
+	if !ok || ld.Op != token.MUL {
+		return false
+	}
+	g, ok := ld.X.(*ssa.Global)
+	return ok && g.Pkg != nil && g.Pkg.Pkg.Path() == "crypto/rand" && g.Name() == "Reader"
 }
